@@ -76,8 +76,8 @@ AFTER_STOP = BOUNDS['panoc']['after_stop']
 AFTER_INIT = BOUNDS['panoc']['after_init']
 KEY_INIT = 'C19-init-stepsize-loop-not-interruptible'
 
-# unstopped runs of the sweep bases: op line (stopat = stopcb = 0) -> ticks of its progress callbacks
-BASE_CB = {}
+# unstopped runs of the PANOC-OCP sweep bases: op line (stopat = stopcb = 0) -> names of all its problem calls
+BASE_CALLS = {}
 
 
 def bump(k, n=1):
@@ -115,7 +115,7 @@ def random_run(name, rng, mod):
 @C.tolerant
 def sweep_ops(name, rng, exe, n_problems, mod=None):
     """Exhaustive stop injection on fixed runs: stop() from inside every event (index 1…T) *and* from inside
-    every progress callback (1…#callbacks).  The unstopped run's callback ticks are kept in BASE_CB."""
+    every progress callback (1…#callbacks).  PANOC-OCP: the unstopped run's call names are kept in BASE_CALLS."""
     ops = []
     for _ in range(n_problems):
         base = gen_base(name, rng, mod)
@@ -130,13 +130,10 @@ def sweep_ops(name, rng, exe, n_problems, mod=None):
         secs = out[0].split(' ; ')
         T = next(int(s.split()[1]) for s in secs if s.startswith('T '))
         ncb = sum(1 for s in secs if s.startswith('CB '))
-        evs = LM.ev_list(out[0])
         if name == 'ocp':
-            calls = next((e[1:] for e in evs if e and e[0] == 'calls'), [])
-            cbt = [i + 1 for i, c in enumerate(calls) if c == 'cb']
-        else:
-            cbt = [i + 1 for i, c in enumerate(LM.ev_names(evs)) if c == 'cb']
-        BASE_CB[base_key(base)] = cbt
+            # raw call names are recorded in the stopped runs as well (trace=2): the reference is compared call by call
+            BASE_CALLS[base_key(base)] = next((e[1:] for e in LM.ev_list(out[0]) if e and e[0] == 'calls'), [])
+            base['trace'] = '2'
         for t in range(1, T + 1):
             o = S.Op(base); o['stopat'] = str(t)
             ops.append(o.line())
@@ -229,13 +226,24 @@ def monitor(op_line, out_line, st, solver=None):
     else:
         bump('status_after_stop_' + status)
     if flavor == 'ocp':
-        cbt = BASE_CB.get(base_key(op))
-        if cbt is None:
+        ref = BASE_CALLS.get(base_key(op))
+        calls = next((e[1:] for e in evs if e and e[0] == 'calls'), None)
+        if ref is None or calls is None:
             bump('ocp_runs_without_unstopped_reference')
             return None
-        nxt = next((c for c in cbt if c >= t0), None)
+        if len(calls) != T:
+            return f'{len(calls)} recorded problem calls, tick counter {T}'
+        if calls[:t0] != ref[:t0]:
+            # with disable_acceleration the solver tests `q.allFinite()` on a never-written q: whether it then
+            # calls lbfgs.reset() depends on uninitialised memory (no effect on any result) — the two runs are
+            # not comparable call by call
+            bump('ocp_reference_diverged_before_stop')
+            return None
+        if sum(1 for c in calls[t0:] if c == 'cb') > 2:
+            return f'more than 2 progress callbacks after stop() landed at event {t0}'
+        nxt = next((i + 1 for i, c in enumerate(ref) if c == 'cb' and i + 1 >= t0), None)
         if nxt is None:
-            return f'stop() landed at event {t0}, after the last callback of the unstopped run ({cbt[-1:]})'
+            return f'stop() landed at event {t0}, after the last callback of the unstopped run ({len(ref)} calls)'
         if T > nxt + 1:
             return (f'stop() landed at event {t0}; the unstopped run finishes the iteration in flight at event '
                     f'{nxt}, but the stopped run made {T} calls (> {nxt} + final callback)')
